@@ -339,6 +339,28 @@ def make_o1_sequence():
     return o1s
 
 
+HET_POOL = ["ab", "", None, 0, False, ["tcp", 22], [], {"p": 1}, {}, {"a": [1]}, [{"a": 1}]]
+
+
+def het_value(idx, wrap):
+    v = [copy.deepcopy(HET_POOL[i]) for i in idx]
+    return {"loop": v} if wrap else v
+
+
+def make_o1_het():
+    """sequences whose items are of different kinds (scalar, sequence, mapping, empty ones), bare or as a mapping value"""
+    def o1h(en):
+        n = 2 + en.choice("n", 2)
+        idx = [en.choice("i%d" % i, len(HET_POOL)) for i in range(n)]
+        wrap = en.flag("wrap")
+        case = lambda mv: {"het": idx, "wrap": wrap}  # noqa
+        en.note_sample(case)
+        v = het_value(idx, wrap)
+        b_ = check_text(v, SER.PlaybookSerializer.serialize(v))
+        en.must_hold(not b_, "injective", case, detail=b_)
+    return o1h
+
+
 def _plain(v):
     if isinstance(v, ODict):
         class View(dict):
@@ -659,6 +681,9 @@ def obligations(tier):
         Obligation("O1s-sequence", make_o1_sequence(), ["injective"],
                    desc="two values serialised one after the other in the same process (%d x %d pairs of scalars and small containers that compare equal across types, e.g. 1 / True / 1.0 / '1'): each text decodes to its own value" % (len(SEQ_POOL), len(SEQ_POOL)),
                    bounds={"values": [repr(v) for v in SEQ_POOL], "sequence length": 2}, encoded=enc[:5], budget_s=60, replay="collision", check_sample=True),
+        Obligation("O1h-mixed-sequences", make_o1_het(), ["injective"],
+                   desc="sequences of 2 or 3 items of different kinds (%d item values: strings, null, falsy scalars, sequences, mappings, empty containers), bare and as a mapping value: the text decodes to the value" % len(HET_POOL),
+                   bounds={"items": [repr(v) for v in HET_POOL], "sequence length": "2..3"}, encoded=enc[:5], budget_s=120, replay="collision", check_sample=True),
         Obligation("O1-injective-wide", make_o1(2 if thorough else 1, 1, 2), ["injective"],
                    desc="decode(serialize(p)) == p: plays of depth <= %d, <= 2 entries per container, symbolic strings (values and mapping keys) of <= 1 char" % (2 if thorough else 1),
                    bounds={"depth": 2 if thorough else 1, "entries per mapping / sequence": "<= 2", "strings": "<= 1 symbolic char of %r" % ALPHA,
@@ -693,6 +718,10 @@ def obligations(tier):
 def _native(case):
     if "bytes_pair" in case:
         return bytes_pair(case["bytes_pair"], case["slot"])
+    if "het" in case:
+        v = het_value(case["het"], case["wrap"])
+        b_ = check_text(v, SER.PlaybookSerializer.serialize(v))
+        return [b_] if b_ else []
     if "sequence" in case:
         bad = []
         for i in case["sequence"]:
